@@ -40,8 +40,10 @@ Emit == IF phase = "done" THEN PrintT(<<"H", delivered, res, st.ver>>) ELSE TRUE
 TSs(l) == {l.tags[i] : i \in {j \in DOMAIN l.tags : l.tagn[j] = "TS"}}
 TSConflict == \E a, b \in DOMAIN delivered :
                 \E x \in TSs(LineOf(delivered[a])), y \in TSs(LineOf(delivered[b])) : x # y
+\* (nor for a line that names itself: refused whatever the version is)
+SelfNamed == \E k \in DOMAIN delivered : SelfMention(LineOf(delivered[k]))
 Claimed == /\ Cat.cfg.vlevel > 0 \/ \A k \in DOMAIN delivered : VNs(LineOf(delivered[k])) = {}
-           /\ ~TSConflict
+           /\ ~TSConflict /\ ~SelfNamed
 Agrees == (phase = "done" /\ Claimed) =>
    /\ (res # "ok") = DeclError(Cat.cfg.version, Lines)
    /\ (res # "ok" => res = "VersionError")
@@ -58,7 +60,7 @@ LoadAgrees ==
   LET ls == SeqMap(LAMBDA i : LineOf(i), delivered)
       outs == Load(Init0(Cat.cfg), ls)
       clean == \A o \in outs : PlaceholderIds(o.st) = {} /\ VirtLinkKeys(o.st) = {} IN
-  (delivered # <<>> /\ Cat.cfg.vlevel > 0 /\ ~TSConflict) =>
+  (delivered # <<>> /\ Cat.cfg.vlevel > 0 /\ ~TSConflict /\ ~SelfNamed) =>
      /\ DeclErrorD(Cat.cfg.version, Cat.cfg.dialect, Lines) => \A o \in outs : o.res # "ok"
      /\ (\E o \in outs : o.res = "VersionError") =>
             (DeclErrorD(Cat.cfg.version, Cat.cfg.dialect, Lines)
